@@ -242,7 +242,36 @@ fn boolean_part(run: &Run, k_max: usize, small_full: bool, full_vals: bool) -> A
         ["@.p".into(), "@.q==1".into(), "match(@.r,'')".into()],
         ["@['p']".into(), "length(@.q)==0".into(), "$.c0".into()],
         [format!("@['a{}/b']", bs), format!("@['{}{}']==1", bs, bs), "@[\" \"]".into()],
+        // atoms whose texts differ only by punctuation (anything keyed on a lossy rendering of an operand collides)
+        ["@.a.b".into(), "@.ab".into(), "@['a','b']".into()],
+        ["@.a[0]".into(), "@.a0".into(), "@.a[0:1]".into()],
     ];
+    let cells_collide: Vec<Value> = {
+        let mut v = vec![];
+        for a in [None, Some(json!({"b": 1})), Some(json!({"b": null})), Some(json!([7])), Some(json!([])), Some(json!(1))] {
+            for ab in [None, Some(json!(1)), Some(json!(null))] {
+                for a0 in [None, Some(json!(1))] {
+                    for b in [None, Some(json!(false))] {
+                        let mut m = Map::new();
+                        if let Some(x) = &a {
+                            m.insert("a".into(), x.clone());
+                        }
+                        if let Some(x) = &ab {
+                            m.insert("ab".into(), x.clone());
+                        }
+                        if let Some(x) = &a0 {
+                            m.insert("a0".into(), x.clone());
+                        }
+                        if let Some(x) = &b {
+                            m.insert("b".into(), x.clone());
+                        }
+                        v.push(Value::Object(m));
+                    }
+                }
+            }
+        }
+        v
+    };
     let mut memo = vec![None; k_max + 1];
     let mut forms: Vec<F> = vec![];
     for k in 0..=(if small_full { 1.min(k_max) } else { k_max }) {
@@ -275,7 +304,7 @@ fn boolean_part(run: &Run, k_max: usize, small_full: bool, full_vals: bool) -> A
     let mut total = Acc::new();
     for (ai, as_obj) in jobs {
         let atoms = &atom_sets[ai];
-        let cells = if ai == 4 { cells_odd.clone() } else { cells_plain.clone() };
+        let cells = if ai == 4 { cells_odd.clone() } else if ai >= 5 { cells_collide.clone() } else { cells_plain.clone() };
         // `$.c0` only exists in the object-shaped document; in the array-shaped one it is an absent member: both fine
         let wrap: &(dyn Fn(Vec<Value>) -> Value + Sync) = if as_obj { &wrap_obj } else { &wrap_arr };
         let doc = wrap(cells.clone());
